@@ -48,6 +48,7 @@ def run(tier):
             expand.rollback_mark_rule(chk, 'C08.xpand', prog, p, cfgname)
             expand.failure_status_rule(chk, 'C08.xpand', prog, p, cfgname)
             expand.retry_termination_rule(chk, 'C08.xpand', prog, p, cfgname)
+            expand.reuse_keeps_stack_rule(chk, 'C08.xpand', prog, p, cfgname)
         chk.clause('C08.query', 'R3 oracle group `query` (lwork = -1) of ?gssvx / ?gsisx (D3)')
         nl = 0
         for p in _drv.PRECS:
